@@ -97,8 +97,10 @@ def check_values(got, want, queries, ends, exact_unit, what, sig, law=None):
         fail('%s: result has shape %r for %d wavelengths' % (what, got.shape, len(queries)), sig)
     for q, g, w in zip(queries, got, want):
         rel = 1e-12
-        if law is not None and not exact_unit:
-            rel += 2e-15 * (sensitivity(law['wav'], law['chi'], 0.55) + sensitivity(law['wav'], law['chi'], q))
+        if law is not None:
+            # legal interpolation formulas differ by ~eps * (local slope / local value); unit conversions add a 1-ulp shift
+            rel += (2e-15 if not exact_unit else 4e-16) * (sensitivity(law['wav'], law['chi'], 0.55) +
+                                                          sensitivity(law['wav'], law['chi'], q))
         ok = abs(g - w) <= rel * max(1., abs(w))
         near_end = any(abs(q - e) <= 1e-12 * e for e in ends)
         if not ok and not exact_unit and near_end and abs(g) <= 0.:
@@ -128,7 +130,7 @@ def run_case(case, ctx):
 
     # 1. direct formula, everything in micron / cm2/g
     base = make_law(wav, chi, 'um', 'cm2/g')
-    check_values(query(base, 'um'), want, qs, ends, True, 'table in micron, queries in micron', 'c14:formula')
+    check_values(query(base, 'um'), want, qs, ends, True, 'table in micron, queries in micron', 'c14:formula', law)
     # -0.4 at V and 0 outside, explicitly
     with must_succeed('get_av'):
         v = float(base.get_av([0.55] * u.micron)[0])
@@ -139,6 +141,14 @@ def run_case(case, ctx):
         vo = base.get_av(np.array(out) * u.micron)
     if any(float(x) != 0. for x in vo):
         fail('outside the table (at %r micron) the pattern is %r, not 0' % (out, list(vo)), 'c14:outside_not_zero')
+    # scalar (0-d) queries: one wavelength at a time must give the same numbers as the array query
+    for q, w in zip(qs, want):
+        with must_succeed('get_av with a scalar Quantity'):
+            g = base.get_av(q * u.micron)
+        g = np.asarray(getattr(g, 'value', g), dtype=float)
+        if g.size != 1:
+            fail('scalar query returned %d values' % g.size, 'c14:scalar_query')
+        check_values(g.reshape(1), [w], [q], ends, True, 'scalar query', 'c14:scalar_query', law)
     # 2. query units
     check_values(query(base, case['query_unit']), want, qs, ends, case['query_unit'] == 'um',
                  'queries in %s' % case['query_unit'], 'c14:query_unit', law)
